@@ -676,6 +676,13 @@ class SmallVectorBase : private Alloc {
       // Besides, if 'this' is large, let's not shrink to small size and keep our dynamic memory for now.
       // To sum-up, in this context, we do not touch our capacity, only move and relocates o's elements
       const SizeType oSize = o._capa;
+      if (!isSmall() && _capa < oSize) {
+        // Our dynamic storage may be smaller than the inline capacity if it has been stolen from a vector.
+        // Release it and come back to small state, in which o's elements always fit.
+        destroyFreeStorage();
+        _capa = 0;
+        _size = inplaceCapa;
+      }
       move_n(o._storage.ptr(), oSize, begin(), size());
       setSize(oSize);
       o.setSize(0);
